@@ -7,6 +7,7 @@ import (
 	"go/token"
 	"math/rand"
 	"path/filepath"
+	"regexp"
 	"strconv"
 	"strings"
 
@@ -337,6 +338,7 @@ type dcObs struct {
 	Order    []string          `json:"order,omitempty"`
 	Poison   string            `json:"poison,omitempty"`  // what ran on the shared state right before
 	DeadPanics int             `json:"dead_panics"`       // runs aborted by a panicking callback inside a dead branch before this one
+	Kinds    map[string]int    `json:"kinds,omitempty"`   // disturber rules of the history (k=catalogue) / judged reports and re-entrant runs (k=dc)
 }
 
 // rules files without any Deadcode() filter (merged before / after the ones that have it)
@@ -370,28 +372,43 @@ func deadWithBundle(own, pkg string) string {
 
 // deadConfigs: load histories that all contain one Deadcode() and one !Deadcode() rule on probe($x) -- alone, loaded
 // before / after / between files that have no such filter, next to imported bundles (own rules first, then the bundle's
-// files), or inside a bundle whose later files have none.
-func deadConfigs() []struct {
+// files), or inside a bundle whose later files have none. Every history but the first also loads a file of disturber
+// rules (Do() handlers, Contains() searches, custom filters: code that runs between the walker's writes of the flag),
+// in front of, between or behind the other files.
+type deadConfig struct {
 	Name  string
 	Files map[string]string
 	Order []string
-} {
-	type cfg = struct {
-		Name  string
-		Files map[string]string
-		Order []string
+	Kinds map[string]int // disturber kinds of the history
+}
+
+func deadConfigs(rng *rand.Rand, pool []disturber) []deadConfig {
+	base := []deadConfig{
+		{Name: "Load(deadcode rules)", Files: map[string]string{"dead.go": deadRules}, Order: []string{"dead.go"}},
+		{Name: "Load(deadcode rules); Load(rules without Deadcode)", Files: map[string]string{"dead.go": deadRules, "other.go": deadOther}, Order: []string{"dead.go", "other.go"}},
+		{Name: "Load(rules without Deadcode); Load(deadcode rules)", Files: map[string]string{"dead.go": deadRules, "other.go": deadOther}, Order: []string{"other.go", "dead.go"}},
+		{Name: "Load(deadcode rules); Load(other); Load(other2)", Files: map[string]string{"dead.go": deadRules, "other.go": deadOther, "other2.go": deadOther2}, Order: []string{"dead.go", "other.go", "other2.go"}},
+		{Name: "Load(other); Load(deadcode rules); Load(other2)", Files: map[string]string{"dead.go": deadRules, "other.go": deadOther, "other2.go": deadOther2}, Order: []string{"other.go", "dead.go", "other2.go"}},
+		{Name: "Load(deadcode rules + import of bundle wb3, which has no Deadcode)", Files: map[string]string{"dead.go": deadWithBundle(deadRules, "wb3")}, Order: []string{"dead.go"}},
+		{Name: "Load(deadcode rules + import of the comment-only bundle wb4)", Files: map[string]string{"dead.go": deadWithBundle(deadRules, "wb4")}, Order: []string{"dead.go"}},
+		{Name: "Load(other + import of bundle wb2, whose first file has the Deadcode rules)", Files: map[string]string{"other.go": deadWithBundle(deadOther, "wb2")}, Order: []string{"other.go"}},
+		{Name: "Load(other + import of bundle wb2); Load(other2)", Files: map[string]string{"other.go": deadWithBundle(deadOther, "wb2"), "other2.go": deadOther2}, Order: []string{"other.go", "other2.go"}},
 	}
-	return []cfg{
-		{"Load(deadcode rules)", map[string]string{"dead.go": deadRules}, []string{"dead.go"}},
-		{"Load(deadcode rules); Load(rules without Deadcode)", map[string]string{"dead.go": deadRules, "other.go": deadOther}, []string{"dead.go", "other.go"}},
-		{"Load(rules without Deadcode); Load(deadcode rules)", map[string]string{"dead.go": deadRules, "other.go": deadOther}, []string{"other.go", "dead.go"}},
-		{"Load(deadcode rules); Load(other); Load(other2)", map[string]string{"dead.go": deadRules, "other.go": deadOther, "other2.go": deadOther2}, []string{"dead.go", "other.go", "other2.go"}},
-		{"Load(other); Load(deadcode rules); Load(other2)", map[string]string{"dead.go": deadRules, "other.go": deadOther, "other2.go": deadOther2}, []string{"other.go", "dead.go", "other2.go"}},
-		{"Load(deadcode rules + import of bundle wb3, which has no Deadcode)", map[string]string{"dead.go": deadWithBundle(deadRules, "wb3")}, []string{"dead.go"}},
-		{"Load(deadcode rules + import of the comment-only bundle wb4)", map[string]string{"dead.go": deadWithBundle(deadRules, "wb4")}, []string{"dead.go"}},
-		{"Load(other + import of bundle wb2, whose first file has the Deadcode rules)", map[string]string{"other.go": deadWithBundle(deadOther, "wb2")}, []string{"other.go"}},
-		{"Load(other + import of bundle wb2); Load(other2)", map[string]string{"other.go": deadWithBundle(deadOther, "wb2"), "other2.go": deadOther2}, []string{"other.go", "other2.go"}},
+	if len(pool) == 0 {
+		return base
 	}
+	for i := 1; i < len(base); i++ {
+		c := &base[i]
+		src, kinds := genDisturbFile(rng, pool, 7+rng.Intn(4), i)
+		c.Files["disturb.go"] = src
+		c.Kinds = kinds
+		at := []int{0, len(c.Order), len(c.Order) / 2}[i%3]
+		order := append([]string{}, c.Order[:at]...)
+		order = append(order, "disturb.go")
+		c.Order = append(order, c.Order[at:]...)
+		c.Name += fmt.Sprintf("; disturber rules (Do / Contains / custom filters) loaded as file #%d of %d", at+1, len(c.Order))
+	}
+	return base
 }
 
 // contextSig describes the enclosing ifs of a node: per if, constant-ness of the condition and the part entered.
@@ -428,6 +445,8 @@ func contextSig(t *tnode, condOfNode func(ast.Node) (bool, bool)) string {
 	return strings.Join(parts, ".")
 }
 
+var disturberGroupRe = regexp.MustCompile(`(^|/)q\d+_`)
+
 func runDeadcode(enc *json.Encoder, rng *rand.Rand, nfiles, size int, tmp string) {
 	type engCfg struct {
 		name   string
@@ -435,20 +454,31 @@ func runDeadcode(enc *json.Encoder, rng *rand.Rand, nfiles, size int, tmp string
 		order  []string
 		e      *ruleguard.Engine
 		shared *ruleguard.RunnerState
+		pool   *statePool
 		prev   *hutil.Target // the file that ran on the shared state last
 	}
+	dpool, dropped := usableDisturbers()
+	if len(dpool) < 16 {
+		enc.Encode(dcObs{K: "dc", Config: "disturber catalogue", Err: "disturber rules do not load: " + strings.Join(dropped, " | ")})
+	}
 	var cfgs []*engCfg
-	for _, c := range deadConfigs() {
+	allKinds := map[string]int{}
+	for _, c := range deadConfigs(rng, dpool) {
 		e, err := loadHistory(token.NewFileSet(), c.Files, c.Order, nil)
 		if err != nil {
 			enc.Encode(dcObs{K: "dc", Config: c.Name, Err: "load: " + err.Error(), Files: c.Files, Order: c.Order})
 			continue
 		}
-		cfgs = append(cfgs, &engCfg{name: c.Name, files: c.Files, order: c.Order, e: e, shared: ruleguard.NewRunnerState(e)})
+		for k, v := range c.Kinds {
+			allKinds[k] += v
+		}
+		cfgs = append(cfgs, &engCfg{name: c.Name, files: c.Files, order: c.Order, e: e, shared: ruleguard.NewRunnerState(e), pool: &statePool{e: e}})
 	}
+	enc.Encode(dcObs{K: "catalogue", Probes: len(dpool), Kinds: allKinds, Mismatch: dropped})
 	if len(cfgs) < 2 {
 		return
 	}
+	isDist := func(group string) bool { return disturberGroupRe.MatchString(group) }
 	isDead := func(group string) bool { return strings.HasSuffix(group, "dead") }
 	isLive := func(group string) bool { return strings.HasSuffix(group, "live") }
 	for i := 0; i < nfiles; i++ {
@@ -466,6 +496,7 @@ func runDeadcode(enc *json.Encoder, rng *rand.Rand, nfiles, size int, tmp string
 		for _, ev := range exp {
 			expDead[ev.ID] = ev.Dead
 		}
+		byRange := deadByRange(t, order, expDead)
 		hookEvs, _, _ := ruleguard.VerifWalkEvents(t.Info, t.File, ruleguard.VerifWalkState{}, -1)
 		hookDead := map[ast.Node]bool{}
 		for _, ev := range hookEvs {
@@ -473,13 +504,34 @@ func runDeadcode(enc *json.Encoder, rng *rand.Rand, nfiles, size int, tmp string
 		}
 		// every file under the single-file engine and under one of the other load histories
 		for _, cfg := range []*engCfg{cfgs[0], cfgs[1+i%(len(cfgs)-1)]} {
-			obs := dcObs{K: "dc", Name: name, Config: cfg.name}
-			// engine verdicts: "dead" / "live" by the group that reported the probe (reports of other rules are not looked at)
-			verdict := func(state *ruleguard.RunnerState) (map[int]string, []hReport, string) {
+			obs := dcObs{K: "dc", Name: name, Config: cfg.name, Kinds: map[string]int{}}
+			// engine verdicts on the probes: "dead" / "live" by the group of the plain probe rules that reported it; every
+			// report of a disturber rule that ends in Deadcode() / !Deadcode() is judged by the flag of its node
+			verdict := func(state *ruleguard.RunnerState, how string) (map[int]string, []hReport, string) {
 				reps, _, pmsg := runOnce(cfg.e, t, t.File, 0, state, -1)
 				out := map[int]string{}
 				for _, r := range reps {
 					if !isDead(r.Group) && !isLive(r.Group) {
+						if isDist(r.Group) {
+							obs.Kinds["reports:plain-disturber"]++
+						}
+						continue
+					}
+					if isDist(r.Group) {
+						want, known := byRange[[2]int{r.Pos, r.End}]
+						if !known {
+							obs.Kinds["reports:unjudged"]++
+							continue
+						}
+						obs.Kinds["reports:disturber+deadcode"]++
+						if want != isDead(r.Group) {
+							txt := string(t.Src[r.Pos:r.End])
+							if len(txt) > 50 {
+								txt = txt[:50] + "..."
+							}
+							obs.Mismatch = append(obs.Mismatch, fmt.Sprintf("rule %s (line %d of its file) reported %q at line %d with the %s state: the node is %s",
+								r.Group, r.Line, txt, 1+strings.Count(string(t.Src[:r.Pos]), "\n"), how, map[bool]string{true: "dead", false: "live"}[want]))
+						}
 						continue
 					}
 					lab, err := strconv.Atoi(string(t.Src[r.Pos+len("probe(") : r.End-1]))
@@ -498,7 +550,7 @@ func runDeadcode(enc *json.Encoder, rng *rand.Rand, nfiles, size int, tmp string
 				}
 				return out, reps, pmsg
 			}
-			vFresh, freshReps, p2 := verdict(nil)
+			vFresh, freshReps, p2 := verdict(nil, "fresh")
 			// the shared state has seen the earlier files of this engine; now and then the run right before this one is
 			// aborted by a Report callback that panics while the walk is inside a dead branch (of the previous file or of
 			// this one), the panic is recovered and the state used again
@@ -524,11 +576,39 @@ func runDeadcode(enc *json.Encoder, rng *rand.Rand, nfiles, size int, tmp string
 					}
 				}
 			}
-			vShared, _, p1 := verdict(cfg.shared)
-			cfg.prev = t
+			vShared, _, p1 := verdict(cfg.shared, "shared")
 			if p1 != "" || p2 != "" {
 				obs.Mismatch = append(obs.Mismatch, "run failed: "+p1+p2)
 			}
+			// re-entrant runs: Report callbacks of this file's run start runs over this file / the previous one (nil, own and
+			// pooled states, same goroutine or another one); every run of the tree must report what it reports alone
+			if rng.Intn(2) == 0 && p2 == "" {
+				targets, names := []*hutil.Target{t}, []string{"this file"}
+				lone := [][]hReport{freshReps}
+				if cfg.prev != nil {
+					pr, _, pm := runOnce(cfg.e, cfg.prev, cfg.prev.File, 0, nil, -1)
+					if pm == "" {
+						targets, names, lone = append(targets, cfg.prev), append(names, "the previous file of this engine"), append(lone, pr)
+					}
+				}
+				nrep := make([]int, len(lone))
+				for k := range lone {
+					nrep[k] = len(lone[k])
+				}
+				plan := genPlan(rng, nrep, 0, []string{"nil", "own", "pool"}[rng.Intn(3)], 2)
+				runPlan(cfg.e, targets, plan, cfg.pool)
+				mm, nruns, nnested := checkPlan(plan, func(k, _ int) ([]hReport, string) { return lone[k], "" })
+				obs.Kinds["reentrant-plans"]++
+				obs.Kinds["reentrant-runs"] += nruns
+				obs.Kinds["nested-runs"] += nnested
+				if mm != "" {
+					obs.Mismatch = append(obs.Mismatch, "re-entrant runs: "+mm+"\n"+describePlan(plan, names, ""))
+					if len(targets) > 1 {
+						obs.Poison = "the previous file of this engine:\n" + string(cfg.prev.Src)
+					}
+				}
+			}
+			cfg.prev = t
 			sigs := map[string]bool{}
 			for _, tn := range order {
 				call, ok := tn.n.(*ast.CallExpr)
